@@ -295,13 +295,56 @@ class Engine(Interp):
             if self.is_sym(a) or self.is_sym(b):
                 return False
             return a == b
+        if isinstance(a, (dict, types.MappingProxyType)) and isinstance(b, SDict):
+            a = self.lift_container(dict(a))
+        if isinstance(b, (dict, types.MappingProxyType)) and isinstance(a, SDict):
+            b = self.lift_container(dict(b))
+        if isinstance(a, SDict) and isinstance(b, SDict):
+            return self.sdict_equal(a, b, pc)
+        if isinstance(a, (list, tuple)) and isinstance(b, SList):
+            a = self.lift_container(list(a))
+        if isinstance(b, (list, tuple)) and isinstance(a, SList):
+            b = self.lift_container(list(b))
+        if isinstance(a, SList) and isinstance(b, SList):
+            if all(self.pybool(c) is True for c, _ in a.items + b.items):
+                if len(a.items) != len(b.items):
+                    return False
+                cs = [self._lb(self.equal(x, y, pc)) for (_, x), (_, y) in zip(a.items, b.items)]
+                return self._boolify(z3.simplify(z3.And(*cs))) if cs else True
+            if a is b:
+                return True
+            raise Unsupported("equality on guarded lists")
         if isinstance(a, (SList, SDict)) or isinstance(b, (SList, SDict)):
-            raise Unsupported("equality on symbolic container")
+            return False
         if isinstance(a, (int, float, bool, z3.ExprRef)) and isinstance(b, (int, float, bool, z3.ExprRef)):
             return self._boolify(self._lb(self.cmp_num(ast.Eq, a, b)))
         if self.is_sym(a) or self.is_sym(b):
             return False
         return a == b
+
+    def sdict_equal(self, a, b, pc=TRUE):
+        """structural equality of two symbolic dicts (identity short-cut; keys compared with key_eq)"""
+        if a is b:
+            return True
+        if a.is_set != b.is_set:
+            return False
+        ea, eb = self.sdict_entries(a, pc), self.sdict_entries(b, pc)
+        conds = []
+        for mine, other in ((ea, b), (eb, a)):
+            for c, k, v in mine:
+                found, val = self.sdict_lookup(other, k, pc)
+                fb = self._lb(found)
+                if self.pybool(fb) is False:
+                    same = FALSE
+                elif a.is_set:
+                    same = fb
+                else:
+                    try:
+                        same = z3.And(fb, self._lb(self.equal(v, val, pc)))
+                    except UndefinedUse:
+                        same = FALSE
+                conds.append(z3.Implies(self._lb(c), same))
+        return self._boolify(z3.simplify(z3.And(*conds))) if conds else True
 
     def _user_eq(self, cls):
         f = _mro_dict(cls).get("__eq__")
@@ -365,6 +408,23 @@ class Engine(Interp):
             if isinstance(raw, types.FunctionType):
                 return BoundSym(raw, obj)
             return raw
+        if type(obj).__name__ == "SuperProxy":
+            o = obj.obj
+            mro = (o.cls if isinstance(o, Obj) else type(o)).__mro__
+            after = mro[mro.index(obj.cls) + 1:] if obj.cls in mro else ()
+            for k in after:
+                if attr in k.__dict__:
+                    raw = k.__dict__[attr]
+                    if isinstance(raw, types.FunctionType):
+                        return BoundSym(raw, o)
+                    if isinstance(raw, classmethod):
+                        return BoundSym(raw.__func__, o.cls if isinstance(o, Obj) else type(o))
+                    if isinstance(raw, staticmethod):
+                        return raw.__func__
+                    if k is object:
+                        return lambda *a, **kw: None
+                    return raw
+            raise Unsupported(f"super().{attr}")
         if isinstance(obj, SList) and attr == "maxlen":
             return obj.maxlen
         if isinstance(obj, TimerRec) and attr in ("daemon", "interval", "args", "function"):
@@ -653,7 +713,8 @@ class Engine(Interp):
                 return item in container
             except TypeError:
                 pass
-        if isinstance(container, (tuple, list, set, frozenset, dict, types.MappingProxyType, collections.deque)):
+        if isinstance(container, (tuple, list, set, frozenset, dict, types.MappingProxyType, collections.deque,
+                                  type({}.values()), type({}.keys()), type({}.items()))):
             cs = [self._lb(self.equal(x, item, pc)) for x in container]
             return self._boolify(z3.simplify(z3.Or(*cs))) if cs else False
         if isinstance(container, (str, Opaque)) or isinstance(item, (str, Opaque)):
